@@ -215,5 +215,7 @@ def tasks(tier):
     def mustfail(h):
         x = h.real('x')
         h.prove(ops.equal(x, 0), 'engine.mustfail')
+    from props import common as _common
+    ts.append(Task('frame', _common.frame_task(['jesse.helpers.get_candle_source', 'jesse.helpers.slice_candles', 'jesse.helpers.same_length', 'jesse.helpers.np_shift'])))
     ts.append(Task('mustfail', mustfail))
     return ts
